@@ -285,7 +285,7 @@ theorem XL.fx_call (c : Cfg) (hc : Fixed.F64.inc c.mult 0 ≠ 0) (ops : List Op)
     · simp only [e1, e2, e3, e4, e5, e6, if_true, if_false]
       exact XL.fx_fold c hc ops fns resolve lp rp hF _ l hw he har d hd _ _ (Nat.lt_succ_self _)
     by_cases e7 : f = symBytes "if"
-    · simp only [e1, e2, e3, e4, e5, e6, e7, if_true, if_false]
+    · simp only [if_neg e1, if_neg e2, if_neg e3, if_neg e4, if_neg e5, if_neg e6, if_pos e7]
       match l, hw, he, har, hd, h3 e7 with
       | .cons a1 w1 (.cons a2 w2 (.cons a3 w3 .nil)), hw, he, har, hd, _ =>
         simp only [XL.WF] at hw
@@ -340,5 +340,181 @@ theorem X.fx_evaluate_render (c : Cfg) (hc : Fixed.F64.inc c.mult 0 ≠ 0) (ops 
   simp only [EvalFixed.evaluate, X.parse_render ops fns lp rp hF e hw ws hws, X.tree,
     X.fx_eval_tree c hc ops fns resolve lp rp hF e hw he har depth hd]
   cases e.val c <;> rfl
+
+end Eval
+
+/-! ### the value of a tree is never a Go panic -/
+namespace EvalFixed
+
+theorem fixedFrom_ne_panic (c : Cfg) (v : Val) : fixedFrom c v ≠ .panic := by
+  cases v with
+  | num r => simp [fixedFrom]
+  | bool b => simp [fixedFrom]
+  | str s => unfold fixedFrom; cases FixedText.fromStr64 c.places c.mult s <;> simp
+
+theorem withFallback_ne_panic (c : Cfg) (num : Int → Int → Val) (txt : Bytes → Bytes → Val) (l r : Val) :
+    withFallback c num txt l r ≠ .panic := by
+  unfold withFallback
+  have h1 := fixedFrom_ne_panic c l
+  have h2 := fixedFrom_ne_panic c r
+  cases hl : fixedFrom c l <;> cases hr : fixedFrom c r <;> simp_all
+
+theorem bothNum_ne_panic (c : Cfg) (f : Int → Int → VR Val) (hf : ∀ x y, f x y ≠ .panic) (l r : Val) :
+    bothNum c f l r ≠ .panic := by
+  unfold bothNum
+  have h1 := fixedFrom_ne_panic c l
+  have h2 := fixedFrom_ne_panic c r
+  cases hl : fixedFrom c l <;> cases hr : fixedFrom c r <;> simp_all
+
+theorem opOr_ne_panic (c : Cfg) (l r : Val) : opOr c l r ≠ .panic := by
+  unfold opOr
+  have h1 := fixedFrom_ne_panic c l
+  have h2 := fixedFrom_ne_panic c r
+  cases hl : fixedFrom c l <;> cases hr : fixedFrom c r <;> simp_all <;> split <;> simp
+
+theorem opAnd_ne_panic (c : Cfg) (l r : Val) : opAnd c l r ≠ .panic := by
+  unfold opAnd
+  have h1 := fixedFrom_ne_panic c l
+  have h2 := fixedFrom_ne_panic c r
+  cases hl : fixedFrom c l <;> cases hr : fixedFrom c r <;> simp_all <;> split <;> simp
+
+theorem binary_ne_panic (c : Cfg) (sym : Bytes) (l r : Val) : binary c sym l r ≠ .panic := by
+  unfold binary
+  repeat' split
+  · exact opOr_ne_panic c l r
+  · exact opAnd_ne_panic c l r
+  · exact withFallback_ne_panic c _ _ l r
+  · exact withFallback_ne_panic c _ _ l r
+  · exact withFallback_ne_panic c _ _ l r
+  · exact withFallback_ne_panic c _ _ l r
+  · exact withFallback_ne_panic c _ _ l r
+  · exact withFallback_ne_panic c _ _ l r
+  · exact withFallback_ne_panic c _ _ l r
+  · exact bothNum_ne_panic c _ (by intro x y; simp) l r
+  · exact bothNum_ne_panic c _ (by intro x y; simp) l r
+  · refine bothNum_ne_panic c _ ?_ l r
+    intro x y
+    by_cases hy : y = 0
+    · simp only [hy, if_true]; split <;> simp
+    · simp [hy, Fixed.F64.div]
+  · refine bothNum_ne_panic c _ ?_ l r
+    intro x y
+    by_cases hy : y = 0
+    · simp only [hy, if_true]; split <;> simp
+    · simp [hy, Fixed.F64.mod, Fixed.F64.div]
+  · exact bothNum_ne_panic c _ (by intro x y; simp) l r
+  · simp
+
+theorem unary_ne_panic (c : Cfg) (sym : Bytes) (v : Val) : unary c sym v ≠ .panic := by
+  have h := fixedFrom_ne_panic c v
+  unfold unary
+  repeat' split
+  · unfold opNot
+    split
+    · simp
+    · cases hf : fixedFrom c v <;> simp_all
+  · unfold opPlus; cases hf : fixedFrom c v <;> simp_all
+  · unfold opNeg; cases hf : fixedFrom c v <;> simp_all
+  · simp
+
+theorem applyUn_ne_panic (c : Cfg) (u : Option Op) (v : Val) : EvalFixed.applyUn c u v ≠ .panic := by
+  cases u with
+  | none => simp [EvalFixed.applyUn]
+  | some w =>
+    simp only [EvalFixed.applyUn]
+    split
+    · exact unary_ne_panic c _ v
+    · simp
+
+theorem bind_ne_panic {α β : Type} (v : VR α) (f : α → VR β) (hv : v ≠ .panic) (hf : ∀ a, f a ≠ .panic) :
+    v.bind f ≠ .panic := by
+  cases v with
+  | ok a => exact hf a
+  | err => simp [VR.bind]
+  | panic => exact absurd rfl hv
+  | outside => simp [VR.bind]
+
+theorem one_ne_panic (c : Cfg) (f : Int → VR Val) (hf : ∀ x, f x ≠ .panic) (vs : List (VR Val))
+    (hvs : ∀ v ∈ vs, v ≠ .panic) : one c f vs ≠ .panic := by
+  unfold one
+  split
+  · rename_i v
+    exact bind_ne_panic _ _ (bind_ne_panic _ _ (hvs v (by simp)) (fixedFrom_ne_panic c)) hf
+  · simp
+
+theorem foldV_ne_panic (c : Cfg) (step : Int → Int → Int) (acc : Int) (vs : List (VR Val))
+    (hvs : ∀ v ∈ vs, v ≠ .panic) : foldV c step acc vs ≠ .panic := by
+  induction vs generalizing acc with
+  | nil => simp [foldV]
+  | cons v t ih =>
+    simp only [foldV]
+    refine bind_ne_panic _ _ (bind_ne_panic _ _ (hvs v (by simp)) (fixedFrom_ne_panic c)) ?_
+    intro x
+    exact ih _ (fun w hw => hvs w (by simp [hw]))
+
+theorem ifV_ne_panic (c : Cfg) (vs : List (VR Val)) (hvs : ∀ v ∈ vs, v ≠ .panic) : ifV c vs ≠ .panic := by
+  unfold ifV
+  split
+  · rename_i cnd a b
+    have ha : a ≠ .panic := hvs a (by simp)
+    have hb : b ≠ .panic := hvs b (by simp)
+    refine bind_ne_panic _ _ (hvs cnd (by simp)) ?_
+    intro ev
+    have hff := fixedFrom_ne_panic c ev
+    cases hf : fixedFrom c ev with
+    | ok value => simp only; split <;> assumption
+    | panic => exact absurd hf hff
+    | outside => simp
+    | err =>
+      cases ev with
+      | str s => simp only; split <;> assumption
+      | num _ => simp
+      | bool _ => simp
+  · simp
+
+theorem callV_ne_panic (c : Cfg) (name : Bytes) (vs : List (VR Val)) (hvs : ∀ v ∈ vs, v ≠ .panic) :
+    callV c name vs ≠ .panic := by
+  unfold callV
+  repeat' split
+  · exact one_ne_panic c _ (by intro x; simp) vs hvs
+  · exact one_ne_panic c _ (by intro x; simp) vs hvs
+  · exact one_ne_panic c _ (by intro x; simp) vs hvs
+  · exact one_ne_panic c _ (by intro x; simp) vs hvs
+  · exact foldV_ne_panic c _ _ vs hvs
+  · exact foldV_ne_panic c _ _ vs hvs
+  · exact ifV_ne_panic c vs hvs
+  · exact one_ne_panic c _ (by intro x; simp) vs hvs
+  · simp
+
+end EvalFixed
+
+namespace Eval
+open EvalFixed
+
+mutual
+/-- the value of an expression tree is a value, an error, or outside the model — never a Go panic -/
+theorem X.val_ne_panic (c : Cfg) : ∀ e : X, e.val c ≠ .panic
+  | .atom u x => by simp only [X.val]; exact applyUn_ne_panic c u _
+  | .call u f b args => by
+    simp only [X.val]
+    exact bind_ne_panic _ _ (callV_ne_panic c f _ (XL.vals_ne_panic c args)) (applyUn_ne_panic c u)
+  | .bin o l r => by
+    simp only [X.val]
+    refine bind_ne_panic _ _ (X.val_ne_panic c l) ?_
+    intro a
+    exact bind_ne_panic _ _ (X.val_ne_panic c r) (fun b => binary_ne_panic c o.sym a b)
+  | .paren none e => by simp only [X.val]; exact X.val_ne_panic c e
+  | .paren (some v) e => by
+    simp only [X.val]
+    exact bind_ne_panic _ _ (X.val_ne_panic c e) (unary_ne_panic c v.sym)
+theorem XL.vals_ne_panic (c : Cfg) : ∀ l : XL, ∀ v ∈ l.vals c, v ≠ .panic
+  | .nil => by simp [XL.vals]
+  | .cons a w t => by
+    intro v hv
+    simp only [XL.vals, List.mem_cons] at hv
+    rcases hv with h | h
+    · subst h; exact X.val_ne_panic c a
+    · exact XL.vals_ne_panic c t v h
+end
 
 end Eval
